@@ -157,6 +157,14 @@ func (db *DB) reconstructSSTables() error {
 				sstables.ReadBufferSizeBytes(int(db.readBufferSizeBytes)),
 			)
 			if err != nil {
+				if isUnfinishedTable(p) {
+					log.Printf("found unfinished sstable to be deleted in %v", p)
+					err = os.RemoveAll(p)
+					if err != nil {
+						return err
+					}
+					continue
+				}
 				return err
 			}
 
@@ -169,6 +177,14 @@ func (db *DB) reconstructSSTables() error {
 	}
 
 	return nil
+}
+
+// isUnfinishedTable tells whether the table directory is the leftover of a flush that was interrupted by a crash.
+// The metadata is the last thing a table writer writes, and only after it is complete the WAL file that holds the
+// same records is removed - so a table without metadata can be discarded, its records are replayed from the WAL.
+func isUnfinishedTable(tablePath string) bool {
+	info, err := os.Stat(filepath.Join(tablePath, sstables.MetaFileName))
+	return os.IsNotExist(err) || (err == nil && info.Size() == 0)
 }
 
 func (db *DB) replayAndSetupWriteAheadLog() error {
